@@ -155,6 +155,18 @@ def run(ctx, model):
                               detail=f"{k} {getattr(t, 'name', '')}")
     ctx.floor("R-DEC-SKELETON", ctx.rule_counts.get("R-DEC-SKELETON", 0), 80, "decimal configurations")
 
+    # ---------------- R-E2E: the text emitted by the real core builders denotes the composed term
+    from . import e2e
+    cfgs = [("Decimal", [0, 9, 1, 3]), ("Decimal", [], {"start": 0, "end": 50, "min_decimal": 2, "max_decimal": 2, "include_sign": True}),
+            ("Decimal", [7, 120], {"is_extensible": True}), ("PositiveDecimal", [0, 99, 2, 4]), ("PositiveDecimal", [1, 9], {"include_sign": True, "is_extensible": True}),
+            ("NegativeDecimal", [0, 30, 1, None]), ("NegativeDecimal", [5, 9, 3, 3, True]),
+            ("UnsignedDecimal", [0, 9, 1, 3]), ("UnsignedDecimal", [0, 12, 1, 2, True]), ("UnsignedDecimal", [3, 40, 12, 14])]
+    if ctx.tier == "thorough":
+        cfgs += [("Decimal", []), ("PositiveDecimal", []), ("NegativeDecimal", []), ("UnsignedDecimal", []), ("Decimal", [0, 2147483647, 1, 70000])]
+    ctx.parallel(cfgs, lambda c, cfg: e2e.compare(c, model, "R-E2E", *cfg), min_items=2)
+    ctx.floor("R-E2E", ctx.rule_counts.get("R-E2E", 0), len(cfgs), "end-to-end comparisons")
+
+
 
 def _chars(t):
     try:
